@@ -2,7 +2,7 @@
 //! C20. They share the engine (client.rs) and the reference model
 //! (model.rs); each has its own workload and reports the rules of its own
 //! property (plus panics/hangs, which are everybody's).
-use crate::client::{self, CfgSpec, ClientPlan, OpSpec};
+use crate::client::{self, CfgSpec, ClientPlan, ConnectSpec, OpSpec};
 use crate::conn::Sched;
 use crate::framework::{Check, Family, RunOut, Tier};
 use crate::model::{judge_fault_free, judge_under_faults, shape_of};
@@ -477,7 +477,7 @@ pub fn value_plan(rng: &mut Rng) -> ClientPlan {
     p
 }
 
-fn all_cards() -> Vec<CardKind> {
+pub fn all_cards() -> Vec<CardKind> {
     let uids: Vec<Option<String>> = vec![
         None,
         Some("".into()),
@@ -790,6 +790,26 @@ impl Check for ClientCheck {
                     let kinds = vec![FaultKind::Eof, FaultKind::Reset, FaultKind::EofMid(2), FaultKind::EpipeAfter, FaultKind::Silence, FaultKind::Nack(0x9c), FaultKind::BadBody];
                     fams.push(fault_at_every_point("fault_at_every_point_of_begin_commit_cancel", wl, kinds, 2));
                 }
+                // calls that must be refused without traffic, issued while the client has no connection
+                // and the terminal cannot be reached (the previous call used up its retries)
+                fams.push(Family::new("refused_calls_while_terminal_unreachable", 4 * 3, true, |i, _| {
+                    let card = OpSpec::ReadCard { card: CardOutcome { pre: 0, kind: CardKind::Card { uid: Some("04a1b2c3d4e5f6".into()), apps: None, nested_apps: None, no_tlv: false }, delay_ms: 0 } };
+                    let ops = vec![
+                        OpSpec::Begin { token: "A".into(), res: ResOutcome::success() },
+                        card,
+                        OpSpec::Commit { token: "X".into(), amount: 5, rev: RevOutcome::success(), cleanup: CleanupSpec::plain() },
+                        OpSpec::Cancel { token: "".into(), rev: RevOutcome::success(), cleanup: CleanupSpec::plain() },
+                        OpSpec::Begin { token: "A".into(), res: ResOutcome::success() },
+                        OpSpec::Begin { token: "B".into(), res: ResOutcome::success() },
+                    ];
+                    let mut p = ClientPlan::plain(ops);
+                    p.cfg.max_tx = 1;
+                    // the read-card exchange loses its connection, every reconnect is refused / hangs / is slow
+                    p.faults = vec![FaultSpec { conn: 0, point: 16 + (i % 4) as u16 / 2, kind: [FaultKind::Eof, FaultKind::Reset, FaultKind::Silence, FaultKind::EpipeAfter][(i % 4) as usize] }];
+                    p.connects = vec![ConnectSpec::Ok];
+                    p.connects_then = [ConnectSpec::Refused, ConnectSpec::Hang, ConnectSpec::Refused][(i / 4) as usize];
+                    p
+                }));
                 fams.push(Family::new("random_walks_5_tokens", n, false, move |_, rng| random_walk(rng, &TOKENS5, len)));
                 fams.push(Family::new("random_walks_under_transport_faults", n / 2, false, move |_, rng| faulty_walk(rng, &TOKENS5, 12)));
             }
@@ -855,6 +875,8 @@ impl Check for ClientCheck {
                     let mut p = ClientPlan::plain(ops);
                     p.sched = client::default_sched_variants(i, rng.next_u64());
                     p.pt.bmp_reversed = i % 2 == 1;
+                    // the identity of a card does not depend on the configured time-out (incl. its extremes)
+                    p.cfg.read_card_timeout = [15u8, 4, 254, 255, 3][(i % 5) as usize]; // all above the 3 s the slowest presentation takes
                     p
                 }));
                 // the same grid with a connection failure between / inside the presentations
